@@ -29,6 +29,11 @@ def make_copy(root):
 
 
 def apply_edit(tmp, m):
+    if m.get("patch"):
+        import subprocess
+        r = subprocess.run(["git", "apply", "--whitespace=nowarn", m["patch"]], cwd=tmp, capture_output=True, text=True)
+        if r.returncode != 0:
+            return f"seeded patch does not apply: {r.stderr.strip()[:160]}"
     for ed in m["edits"]:
         p = os.path.join(tmp, ed["file"])
         with open(p) as fh:
